@@ -68,10 +68,22 @@ pub fn stream_for(m: &MDesc, class: usize, seed: u64, len: usize, n_hint: usize)
 			let a = gen::values(class % 10, seed, len, n_hint);
 			if m.name == "VWMA" {
 				let mut r = Rng::new(seed ^ 0x77);
-				let grid = class % 10 == 6;
+				let grid = matches!(class % 10, 2 | 6 | 7);
+				// zero-volume stretches (valid input): on grid volumes the running volume sum returns to exactly 0
+				let mut zero_left = 0usize;
 				a.into_iter()
 					.map(|x| {
-						let vol = if grid { gen::grid_volume(&mut r) + 0.25 } else { gen::q(0.1 + 10.0 * r.f()) };
+						if grid && zero_left == 0 && r.chance(0.03) {
+							zero_left = 1 + r.below(2 * n_hint as u64 + 3) as usize;
+						}
+						let vol = if zero_left > 0 {
+							zero_left -= 1;
+							0.0
+						} else if grid {
+							gen::grid_volume(&mut r) + 0.25
+						} else {
+							gen::q(0.1 + 10.0 * r.f())
+						};
 						In::P(x as V, vol as V)
 					})
 					.collect()
